@@ -488,6 +488,105 @@ func scenarios(w *bufio.Writer) {
 		}
 		endRun(w, mon, n)
 	}
+	// C08 / C05 (seventh-round seeded change C08f): the proposal of the height after next reaches a node two heights early; it is
+	// kept through two re-initialisations and answered when its height comes
+	{
+		mon := begin(4, -1, 0)
+		n := mkScenNode(mon, 0, mkVals(4), -1, w)
+		n.start(0)
+		req3 := &Payload{dbft.PrepareRequestType, 3, 0, 3, prepReq{9000000, 13, nil}}
+		n.recv(req3) // two heights early
+		req1 := &Payload{dbft.PrepareRequestType, 1, 0, 1, prepReq{5000000, 9, nil}}
+		n.recv(req1)
+		n.recv(&Payload{dbft.PrepareResponseType, 1, 0, 2, prepResp{req1.Hash()}})
+		n.recv(&Payload{dbft.PrepareResponseType, 1, 0, 3, prepResp{req1.Hash()}})
+		b1 := &Block{idx: 1, prev: "", ts: 5000000, nonce: 9}
+		n.recv(&Payload{dbft.CommitType, 1, 0, 1, commit{sigv{101, b1.Hash()}}})
+		n.recv(&Payload{dbft.CommitType, 1, 0, 2, commit{sigv{102, b1.Hash()}}})
+		if n.height == 1 {
+			n.op(fmt.Sprintf("R %d", n.lastTS), func() { n.d.Reset(n.lastTS) })
+			req2 := &Payload{dbft.PrepareRequestType, 2, 0, 2, prepReq{7000000, 11, nil}}
+			n.recv(req2)
+			n.recv(&Payload{dbft.PrepareResponseType, 2, 0, 1, prepResp{req2.Hash()}})
+			n.recv(&Payload{dbft.PrepareResponseType, 2, 0, 3, prepResp{req2.Hash()}})
+			b2 := &Block{idx: 2, prev: b1.Hash(), ts: 7000000, nonce: 11}
+			n.recv(&Payload{dbft.CommitType, 2, 0, 1, commit{sigv{101, b2.Hash()}}})
+			n.recv(&Payload{dbft.CommitType, 2, 0, 2, commit{sigv{102, b2.Hash()}}})
+		}
+		answered := false
+		if n.height == 2 {
+			n.out = nil
+			n.op(fmt.Sprintf("R %d", n.lastTS), func() { n.d.Reset(n.lastTS) })
+			for _, p := range n.out {
+				if p.T == dbft.PrepareResponseType && p.Hgt == 3 {
+					answered = true
+				}
+			}
+		}
+		mon.tick("C08")
+		if n.height != 2 || !answered {
+			mon.nhit(n, "C08", "early-payload-lost", fmt.Sprintf("node 0 (ledger height %d) was given the proposal of height 3 while it worked on height 1: answered at height 3 = %v", n.height, answered))
+			mon.nhit(n, "C05", "early-payload-lost", "a payload received two heights early was not replayed when its height came")
+		}
+		endRun(w, mon, n)
+	}
+	// C05 / C15 (seventh-round seeded change C05f): a backup accepts a proposal stamped an hour ahead of its clock; the height is
+	// then finished elsewhere (ledger synchronisation) and the node, primary of the next height, proposes: its timestamp comes
+	// from the previous block and its own clock, not from the abandoned proposal
+	{
+		mon := begin(4, -1, 0)
+		n := mkScenNode(mon, 2, mkVals(4), -1, w)
+		n.start(0)
+		ahead := uint64(n.tm.now.UnixNano()) + 3600000000000
+		n.recv(&Payload{dbft.PrepareRequestType, 1, 0, 1, prepReq{ahead / 1000000 * 1000000, 9, nil}})
+		n.height = 1
+		n.tip = toks(8, n.height)
+		n.lastTS = uint64(n.tm.now.UnixNano()) / 1000000 * 1000000
+		n.out = nil
+		n.op(fmt.Sprintf("R %d", n.lastTS), func() { n.d.Reset(n.lastTS) })
+		n.tm.now = n.tm.deadline
+		n.tm.armed = false
+		n.op("T 2 0", func() { n.d.OnTimeout(2, 0) })
+		mon.tick("C05")
+		for _, p := range n.out {
+			if p.T == dbft.PrepareRequestType {
+				if ts := p.Body.(prepReq).ts; ts > uint64(n.tm.now.UnixNano()) {
+					mon.nhit(n, "C05", "proposal-timestamp-from-an-abandoned-height", fmt.Sprintf("node 2 proposes height 2 with timestamp %d, ahead of its clock %d: the timestamp of the proposal it had accepted at the abandoned height 1", ts, n.tm.now.UnixNano()))
+				}
+			}
+		}
+		endRun(w, mon, n)
+	}
+	// C07 (seventh-round seeded change C07f): anti-MEV starts at height 3; a node works on height 2 when the application's ledger
+	// already reports height 2 (the block came by other means, Reset not yet called): the M-th preparation must still lead to a
+	// Commit, not to a PreCommit - what counts is the height the node works on
+	{
+		mon := begin(4, 3, 0)
+		n := mkScenNode(mon, 0, mkVals(4), 3, w)
+		n.height = 1
+		n.start(0)
+		req := &Payload{dbft.PrepareRequestType, 2, 0, 2, prepReq{5000000, 9, nil}}
+		n.recv(req)
+		n.height = 2 // the ledger moves on; the application has not re-initialised the node yet
+		n.recv(&Payload{dbft.PrepareResponseType, 2, 0, 1, prepResp{req.Hash()}})
+		n.height = 1
+		endRun(w, mon, n)
+	}
+	// C10 (seventh-round seeded change C10f): the application lowers its block times in the middle of a height; the primary, whose
+	// pool is empty, subscribes and re-arms with the values of the height's initialisation (maximum - minimum >= 0)
+	{
+		mon := begin(4, -1, 1)
+		n := mkScenNode(mon, 1, mkVals(4), -1, w, func(n *node) { n.dyn = true; n.usePool = true; n.tpb = 10 * timeDur(1000000000); n.maxTpb = 20 * timeDur(1000000000) })
+		n.height = 3
+		n.start(0) // height 4: a backup
+		n.height = 4
+		n.op("R 0", func() { n.d.Reset(0) }) // height 5: primary
+		n.tpb, n.maxTpb = timeDur(1000000000), 5*timeDur(1000000000)
+		n.tm.now = n.tm.deadline
+		n.tm.armed = false
+		n.op("T 5 0", func() { n.d.OnTimeout(5, 0) })
+		endRun(w, mon, n)
+	}
 }
 
 // pump delivers every broadcast payload to every other node in FIFO order until quiet (or max deliveries).
